@@ -16,6 +16,10 @@ ASSUMPTIONS = [
     "'follows' / 'equal the most recent RxCmd' are judged with a latency allowance of 1..2 cycles",
     "register reads (regread sub): the caller holds address/write_data from the request until done; reads are not "
     "aborted by a receive after the PHY accepted the read command",
+    "startup sub: UTMITranslator built with a ULPI record that has clk.o and rst.o (handle_clocking=True); rst.o is "
+    "the usb domain's reset, which is never asserted in the simulation, so cycle 0 is the first cycle after the PHY's "
+    "reset line was released and the PHY may send RxCmds / receives in any simulated cycle (ULPI 1.1 does not tie "
+    "the PHY to the link's own 1 ms hold-off); no PHY traffic is generated for a time at which rst.o is high",
 ]
 
 FLAGS = ("line_state", "vbus_valid", "session_valid", "session_end")
@@ -361,4 +365,108 @@ class RegReadRx(Sub):
         return Result(ok=True, nontrivial=nontrivial, labels=tuple(sorted(labels)))
 
 
-SUBS = [TranslatorRx(), RegReadRx()]
+# -------------------------------------------------------------------------------------------------
+# The platform configuration: ULPI record with clk/rst, hence the 1 ms start-up hold-off of the link's own bus use
+# -------------------------------------------------------------------------------------------------
+
+class StartupRx(Sub):
+    name = "startup"
+    shrink_budget = 12
+    budget = {"quick": 48, "thorough": 640}
+    rule = ("UTMITranslator(handle_clocking=True) on a ULPI record WITH clk.o/rst.o (the link then keeps off the bus "
+            "for 60000 cycles after reset; rst.o stays low throughout) + the same PHY BFM: 1..4 groups of PHY bursts "
+            "(RxCmds, long DIR-high start-up RxCmd runs, receives started by DIR+NXT or by RxCmd) placed early in the "
+            "hold-off window, anywhere inside it, within +-40 cycles of its end (also aimed at the link's first "
+            "register writes) and shortly after it; same wire-trace oracle as `translator`; a fixed sweep of 10 "
+            "single-RxCmd/short-receive placements runs first; non-trivial = an RxCmd that changes the flags or a "
+            "receive with data, inside the window, and the run extends past the window's end.  Cost: every cycle is "
+            "simulated and sampled, ~1-1.5 s per case that reaches the end of the window")
+
+    def setup(self):
+        from lunaverif.bfm import g7_ulpi_startup as S
+        self.S = S
+        self.h, self.window = S.make_platform_translator_harness()
+
+    W = 60000      # _CYCLES_1_MILLISECONDS; only used to aim the generator (run() uses the DUT's constant)
+
+    def strategy(self):
+        W = self.W
+        long_dir = st.fixed_dictionaries(dict(k=st.just("st"), v=bits(8),
+                                              n=weighted([(40, 2), (300, 1), (1500, 1)])))
+        seg = st.one_of(G.packet_seg(max_bytes=12, average=4), G.packet_seg(max_bytes=12, average=4),
+                        G.status_seg(), long_dir)
+
+        def group(at, trig=st.just(0)):
+            b = st.fixed_dictionaries(dict(
+                k=st.just("rx"), gap=G.GAP_RX, nxt=weighted([(0, 1), (1, 1)]), ta=bits(8), trig=trig,
+                chain=st.just(0), segs=st.lists(seg, min_size=1, max_size=3)))
+            return st.tuples(at, st.lists(b, min_size=1, max_size=3)).map(
+                lambda p: [dict(e, at=p[0]) for e in p[1]])
+
+        early = group(st.integers(1, 200))
+        inside = group(st.integers(200, W - 200))
+        edge = group(st.integers(W - 40, W + 40), trig=weighted([(0, 3), (1, 1), (2, 1), (3, 1), (7, 1)]))
+        after = group(st.integers(W + 40, W + 400))
+        opt = lambda s: st.one_of(st.just([]), s)
+        events = st.one_of(
+            st.tuples(early, opt(inside), edge, opt(after)),
+            st.tuples(opt(early), inside, opt(edge), opt(after)),
+            st.tuples(early, inside, st.just([]), st.just([])),
+        ).map(lambda g: [e for grp in g for e in grp])
+        return st.fixed_dictionaries(dict(
+            init=st.one_of(st.just(G.RESET_CTL), G.ctl_values()), delays=G.DELAYS, ev=events,
+            past_window=weighted([(1, 3), (0, 1)])))
+
+    def enumerate(self, tier):
+        W = self.W
+        lone = lambda v: dict(k="rx", gap=1, nxt=0, ta=0, trig=0, chain=0, segs=[dict(k="st", v=v, n=1)])
+        recv = dict(k="rx", gap=1, nxt=0, ta=0, trig=0, chain=0,
+                    segs=[dict(k="st", v=0x0E, n=1),
+                          dict(k="pk", v=0x0D, n=1, b=[[0xC3, 0, 0], [0x11, 0, 0], [0x22, 1, 0x0E], [0x33, 0, 0]],
+                               end=1, ev=0x0D, en=1)])
+        cases = []
+        for at in (2, 1000, 30000, W - 12, W - 3, W - 1, W, W + 1, W + 3, W + 30):
+            ev = [dict(lone(0x0D), at=at), dict(recv, at=at + 10), dict(lone(0x06), at=at + 40)]
+            cases.append(dict(init=dict(G.RESET_CTL, op_mode=at % 2), delays=[0], ev=ev, past_window=1))
+        return cases
+
+    def run(self, case):
+        W = self.window
+        evs = case["ev"]
+        run_to = W + 60 if case["past_window"] else 0
+        cap = max([run_to] + [e["at"] for e in evs]) + 400 + sum(e["gap"] for e in evs) + 60 * len(evs)
+        for e in evs:
+            cap += sum(s["n"] + sum(1 + b[1] for b in s.get("b", ())) + 3 for s in e["segs"])
+        drv = self.S.StartupDriver(case["init"], evs, case["delays"], quiet=8, cap=cap, run_to=run_to)
+        trace = self.h.run_driver(drv, cap + 2)
+        phy = drv.phy
+        rst_high = [t for t, o in enumerate(trace) if o.rst]
+        if rst_high:
+            raise RuntimeError(f"generator soundness: rst.o high in cycle {rst_high[0]} (PHY held in reset)")
+        link = case["init"] != G.RESET_CTL
+        res, extra = check_receive(trace, phy.wire, phy.rd_cycles, lambda t: link and t >= W)
+        if res is not None:
+            return res
+        A, _ = extra
+        labels, _nt = classify(A, phy.wire)
+        flag_change = any(t < W and P.decode_rxcmd(x) != P.decode_rxcmd(A["L"][t - 1] if t else 0)
+                          for t, x in A["cmds"])
+        data_in = any(p and p[0][0] < W for p in A["packets"])
+        if flag_change:
+            labels.add("flag-changing-rxcmd-inside-window")
+        if data_in:
+            labels.add("receive-data-inside-window")
+        if any(W - 3 <= t <= W + 3 for t, _ in A["cmds"]):
+            labels.add("rxcmd-at-window-end")
+        if any(t > W + 3 for t, _ in A["cmds"]):
+            labels.add("rxcmd-after-window")
+        if len(trace) > W:
+            labels.add("ran-past-window")
+        if phy.writes:
+            labels.add("startup-register-writes")
+        if any(s != "IDLE" for _, s in phy.burst_fires):
+            labels.add("burst-interrupts-link")
+        return Result(ok=True, nontrivial=(flag_change or data_in) and len(trace) > W, labels=tuple(sorted(labels)))
+
+
+SUBS = [TranslatorRx(), RegReadRx(), StartupRx()]
